@@ -125,6 +125,41 @@ func RuleK1(r *Report, c *Codec) {
 				fmt.Sprintf("decoder reads bytes 0..%d (open-ended=%v, non-constant=%v), protocol width of %s is %d", kf.ReadExtent-1, kf.ReadOpen, kf.ReadUnrel, kf.Sig, spec.Width))
 		}
 	}
+	// IPv4 reader: the four address bytes are taken in wire order
+	{
+		bad := ""
+		n := 0
+		for _, cp := range c.U.Paths {
+			if cp.Kind != "ipv4" {
+				continue
+			}
+			for _, e := range cp.Calls {
+				if e.Name != "net.IPv4" || len(e.Args) != 4 {
+					continue
+				}
+				n++
+				for i, a := range e.Args {
+					d := int64(-1)
+					if a.Op == "index" && a.Args[0].String() == c.U.Buf {
+						ix := a.Args[1]
+						if v, ok := relOffset(ix, c.U.Offset); ok {
+							d = v
+						} else if ix.Op == "fresh" {
+							if ix.Name == c.U.Offset {
+								d = 0
+							} else {
+								fmt.Sscanf(strings.TrimPrefix(ix.Name, "("+c.U.Offset+"+"), "%d)", &d)
+							}
+						}
+					}
+					if d != int64(i) {
+						bad = fmt.Sprintf("address byte %d is read from offset+%d", i, d)
+					}
+				}
+			}
+		}
+		r.Check(bad == "" && n > 0, "K1", "codec.unmarshal:ipv4:order", c.P.Pos(c.U.Fn.Pos()), "bytes offset+0..3 in order", bad)
+	}
 	// the set of derived signatures must be the expected one (anti-vacuity and drift detection)
 	have := map[string]bool{}
 	for _, kf := range c.Kinds {
